@@ -36,7 +36,11 @@ scratch worktree that it compiles (with and without `-tags verif`), that its dem
 fails with it, and that the repository's whole test suite still passes with it. `seeded/<id>/` holds `patch.diff`,
 the demonstration, the author's README and `meta.json`. `tools/seeded.py` applies each to `/repo`, runs the quick
 check of its property, reverts, and writes `seeded/RESULTS.json`, from which this table is generated
-("caught" = exit 1 with a VIOLATION line; the signatures are those of the replay files).
+("caught" = exit 1 with a VIOLATION line; the signatures are those of the replay files). Waves 3 and 4 (ids `-3`, `-4`,
+`-5`) were swept in parallel with `tools/seeded_iso.py` (an isolated copy of `/verif` run against a scratch worktree of
+`/repo` carrying the patch; merged by `tools/merge_iso.py`), because a serial sweep over `/repo` itself takes hours; the
+two changes of wave 4 that were missed at first were re-run against `/repo` itself after the checks were strengthened
+(`git -C /repo apply`, `./check`, `git -C /repo checkout -- .`).
 
 | id | what it needs in order to manifest | caught by `./check <property>` (quick) | signature(s) / part that caught it |
 |---|---|---|---|
